@@ -150,3 +150,13 @@ M("tconnect-timeout-reports-refused", ["C13"], TCONN, "\ttrack->badness_reason =
 M("happy-no-ipv4-delay", ["C13"], TCONN, "\thas_ipv6 ? HAPPY_EYEBALLS_INITIAL_IPV4_DELAY : 0;", "\t0;")
 M("tconnect-local-addr-only-first", ["C13"], TCONN, "    if (track->has_local_ip && !*fd_bound) {", "    if (track->has_local_ip && !*fd_bound && track->ip_idx == 0) {")
 M("dns-result-truncated-to-8", ["C13"], "libxcm/tp/tcp/xcm_tp_btcp.c", "    int rc = xcm_dns_query_result(bts->conn.query, remote_ips,\n\t\t\t\t  XCM_DNS_MAX_RESULT_SIZE);", "    int rc = xcm_dns_query_result(bts->conn.query, remote_ips,\n\t\t\t\t  8);")
+
+# ---- C11
+M("btcp-no-reapply-after-connecting", ["C11"], BTCP, "\tif (!tcp_opts_equal(&bts->conn.tcp_opts, &tcp_opts))\n\t    rc = tcp_opts_effectuate(&bts->conn.tcp_opts, bts->fd);", "\tif (0)\n\t    rc = tcp_opts_effectuate(&bts->conn.tcp_opts, bts->fd);")
+M("tcp-opts-equal-and-for-eq", ["C11"], TCPATTR, "opts_a->user_timeout == opts_b->user_timeout;", "opts_a->user_timeout && opts_b->user_timeout;")
+M("tcp-set-not-applied-when-established", ["C11"], TCPATTR, "\topts->optname = value;\t\t\t\t\t\t\\\n\tif (fd < 0)\t\t\t\t\t\t\t\\\n\t    return 0;", "\topts->optname = value;\t\t\t\t\t\t\\\n\tif (fd < 0 || value == 7)\t\t\t\t\t\\\n\t    return 0;")
+M("tcp-user-timeout-unscaled", ["C11"], TCPATTR, "GEN_EFFECTUATE_SCALE(user_timeout, TCP_USER_TIMEOUT, 1000)", "GEN_EFFECTUATE_SCALE(user_timeout, TCP_USER_TIMEOUT, 1)")
+M("tcp-keepalive-toggle-not-applied", ["C11"], TCPATTR, "    if (effectuate_keepalive(fd, keepalive) < 0)\n\treturn -1;\n\n    return 0;", "    return 0;")
+M("default-service-always-messaging", ["C11"], XCM, "\tif (parent_s != NULL)\n\t    bytestream = xcm_tp_socket_is_bytestream(parent_s);", "\tif (0)\n\t    bytestream = xcm_tp_socket_is_bytestream(parent_s);")
+M("btls-accept-no-check-time-inherit", ["C11"], BTLS, "    if (!conn_bts->check_time_set)\n\tconn_bts->check_time = server_bts->check_time;", "    if (0)\n\tconn_bts->check_time = server_bts->check_time;")
+M("accepted-always-nonblocking", ["C11"], XCM, "    conn_s = socket_create(server_s->proto, xcm_socket_type_conn,\n\t\t\t   server_s->is_blocking);", "    conn_s = socket_create(server_s->proto, xcm_socket_type_conn,\n\t\t\t   false);")
